@@ -69,6 +69,7 @@ var c02UnitNames = []string{
 	"group-rawor-and", "group-and-rawor",
 	"raw-or-quote-adjacent", "raw-or-placeholder-adjacent",
 	"group-map-namedor", "group-eq-rawor",
+	"neq-in-empty", "map-in-empty", "not-eq-in-empty", "col-empty-list",
 }
 
 func c02MakeUnit(kind int, db *gorm.DB, row *sqlRow, tag string) c02Unit {
@@ -186,12 +187,21 @@ func c02MakeUnit(kind int, db *gorm.DB, row *sqlRow, tag string) c02Unit {
 		return c02Unit{query: "a IN ?", args: []interface{}{[]int{x, y}}, exp: tvOr(ax, colCmp(row, "a", "=", y))}
 	case "empty-map":
 		return c02Unit{query: map[string]interface{}{}, empty: true, exp: tvTrue}
+	// a list that is empty at run time: no value is IN it, every value is NOT IN it
+	case "neq-in-empty":
+		return c02Unit{query: clause.Neq{Column: "a", Value: []int{}}, exp: tvTrue}
+	case "map-in-empty":
+		return c02Unit{query: map[string]interface{}{"a": []int{}}, exp: tv3{false, true}}
+	case "not-eq-in-empty":
+		return c02Unit{query: clause.Not(clause.Eq{Column: "a", Value: []int{}}), exp: tvTrue}
+	case "col-empty-list":
+		return c02Unit{query: "a", args: []interface{}{[]int{}}, exp: tv3{false, true}}
 	}
 	panic("unit kind")
 }
 
 // units used at the second and third chain position in the quick tier
-var c02QuickSecond = []int{0, 1, 2, 3, 5, 6, 9, 11, 12, 14, 15, 20, 21, 23, 29}
+var c02QuickSecond = []int{0, 1, 2, 3, 5, 6, 9, 11, 12, 14, 15, 20, 21, 23, 29, 37}
 
 type c02Shape struct {
 	comb []int // 0 Where, 1 Or, 2 Not
@@ -343,6 +353,13 @@ func H_C02_Chain(shape int) {
 		if sh.comb[i] == 1 && !acc.have {
 			// every earlier unit was empty: the chain effectively starts with Or (outside C02)
 			verifrt.Reach("outside-claim:leading-or")
+			return
+		}
+		if sh.comb[i] == 2 && c02UnitNames[sh.unit[i]] == "map-in-empty" {
+			// Not of a map whose list is empty is rendered "a IS NOT NULL" (clause.IN.NegationBuild),
+			// which is neither reading of a negated empty IN; the property does not say what an
+			// empty list means under Not for the map form: outside C02 (DESIGN §4 C02)
+			verifrt.Reach("outside-claim:not-map-empty-list")
 			return
 		}
 		db = c02Apply(db, sh.comb[i], u, acc)
